@@ -17,23 +17,23 @@ VARIABLES sh, now,
           \* Toggle (+ steady debounce)
           released, tog, dbLatest, prevSig, lastFlip, flips,
           \* ButtonDebouncer
-          bdLatest, lastTrue, trues,
+          bdLatest, lastTrue, trues, bdPeriod,
           \* PeriodicFilter
           pfLast, lastLowPass, lowPasses,
           \* SimpleWatchdog
           wdStart, wdExp, wdTimeout, wdLastPrint, wdEpochs, wdEnabled, prints,
           ret      \* what the last call returned / emitted
-cvars == <<sh, now, released, tog, dbLatest, prevSig, lastFlip, flips, bdLatest, lastTrue, trues, pfLast, lastLowPass,
+cvars == <<sh, now, released, tog, dbLatest, prevSig, lastFlip, flips, bdLatest, lastTrue, trues, bdPeriod, pfLast, lastLowPass,
            lowPasses, wdStart, wdExp, wdTimeout, wdLastPrint, wdEpochs, wdEnabled, prints, ret>>
 tgl == <<released, tog, dbLatest, prevSig, lastFlip, flips>>
-bdv == <<bdLatest, lastTrue, trues>>
+bdv == <<bdLatest, lastTrue, trues, bdPeriod>>
 pfv == <<pfLast, lastLowPass, lowPasses>>
 wdv == <<wdStart, wdExp, wdTimeout, wdLastPrint, wdEpochs, wdEnabled, prints>>
 
 Init(shape, t0) ==
     /\ sh = shape /\ now = t0
     /\ released = FALSE /\ tog = FALSE /\ dbLatest = -shape.period /\ prevSig = FALSE /\ lastFlip = 0 /\ flips = 0
-    /\ bdLatest = 0 /\ lastTrue = 0 /\ trues = 0
+    /\ bdLatest = 0 /\ lastTrue = 0 /\ trues = 0 /\ bdPeriod = shape.period
     /\ pfLast = -shape.period /\ lastLowPass = 0 /\ lowPasses = 0
     /\ wdStart = 0 /\ wdExp = 0 /\ wdTimeout = shape.timeout /\ wdLastPrint = 0 /\ wdEpochs = 0 /\ wdEnabled = FALSE
     /\ prints = 0
@@ -63,13 +63,17 @@ Sample(level, acc) ==
 
 (* ---- ButtonDebouncer ---- *)
 BdGet(level) ==
-    LET fire == level /\ (now - bdLatest > sh.period \/ "bd_no_period" \in Dev) IN
+    LET fire == level /\ (now - bdLatest > bdPeriod \/ "bd_no_period" \in Dev) IN
     /\ sh.kind = "bd"
     /\ bdLatest' = IF fire THEN now ELSE bdLatest
     /\ lastTrue' = IF fire THEN now ELSE lastTrue
     /\ trues' = trues + (IF fire THEN 1 ELSE 0)
     /\ ret' = [r |-> fire]
-    /\ UNCHANGED <<sh, now, tgl, pfv, wdv>>
+    /\ UNCHANGED <<sh, now, tgl, pfv, wdv, bdPeriod>>
+\* set_debounce_period(): only the period changes; the running window is measured from the last True as before
+BdSetPeriod(p) ==
+    /\ sh.kind = "bd" /\ bdPeriod' = p /\ ret' = [r |-> FALSE]
+    /\ UNCHANGED <<sh, now, tgl, pfv, wdv, bdLatest, lastTrue, trues>>
 
 (* ---- PeriodicFilter ---- *)
 PfFilter(level) ==
@@ -108,7 +112,7 @@ WdPrint ==
 EvEnabled(ev) ==
     CASE ev.e = "tick" -> TRUE
       [] ev.e = "sample" -> sh.kind = "toggle"
-      [] ev.e = "bget" -> sh.kind = "bd"
+      [] ev.e \in {"bget", "bdset"} -> sh.kind = "bd"
       [] ev.e = "rec" -> sh.kind = "pf"
       [] ev.e \in {"reset", "settimeout", "expired", "epoch", "print"} -> sh.kind = "wd"
       [] OTHER -> FALSE
@@ -116,6 +120,7 @@ EvNext(ev) ==
     CASE ev.e = "tick" -> Tick(ev.d)
       [] ev.e = "sample" -> Sample(ev.level, ev.acc)
       [] ev.e = "bget" -> BdGet(ev.level)
+      [] ev.e = "bdset" -> BdSetPeriod(ev.p)
       [] ev.e = "rec" -> PfFilter(ev.lvl)
       [] ev.e = "reset" -> WdReset
       [] ev.e = "settimeout" -> WdSetTimeout(ev.t)
@@ -131,7 +136,7 @@ C19_FlipIffEdge == [][(sh.kind = "toggle" /\ (prevSig' # prevSig \/ tog' # tog))
 C19_DebounceSpacing == [][(sh.kind = "toggle" /\ sh.period > 0 /\ flips' = flips + 1 /\ flips >= 1)
                             => now - lastFlip >= sh.period]_cvars
 \* ButtonDebouncer: True only while pressed; two True results more than a period apart; and it does fire when due
-C19_BdSpacing == [][(sh.kind = "bd" /\ trues' = trues + 1 /\ trues >= 1) => now - lastTrue > sh.period]_cvars
+C19_BdSpacing == [][(sh.kind = "bd" /\ trues' = trues + 1 /\ trues >= 1) => now - lastTrue > bdPeriod]_cvars
 C19_BdFiresWhenDue == [][(sh.kind = "bd" /\ bdLatest' # bdLatest) => ret'.r]_cvars
 \* PeriodicFilter: lower-level records pass at most once per period
 C19_PfSpacing == [][(sh.kind = "pf" /\ lowPasses' = lowPasses + 1 /\ lowPasses >= 1) => now - lastLowPass > sh.period]_cvars
